@@ -86,6 +86,19 @@ pub fn gen_area_case<R: Rng>(rng: &mut R) -> AreaCase {
             ShapeSpec::Radial { radii: (0..n).map(|_| rng.gen_range(0.2, 2.)).collect() }
         }
         3 => ShapeSpec::Circle,
+        4 => {
+            // exact ties: coincident outer discs (angle 0), discs touching from inside or
+            // outside, equal radii, all three on one point
+            let radius: f64 = [0.25, 0.5, 0.637556, 1.0, 1.5][rng.gen_range(0, 5)];
+            let distance = match rng.gen_range(0, 5) {
+                0 => 1. - radius,
+                1 => 1. + radius,
+                2 => 0.,
+                3 => (1. - radius).abs(),
+                _ => rng.gen_range(0.1, 2.5),
+            };
+            ShapeSpec::Trimer { radius, angle: [0., 0., 180., 360., 90.][rng.gen_range(0, 5)], distance: distance.max(0.) }
+        }
         _ => ShapeSpec::Trimer {
             radius: rng.gen_range(0.1, 1.5),
             angle: rng.gen_range(10., 180.),
@@ -219,6 +232,27 @@ fn selftest_union_area(ctx: &Ctx) -> bool {
     true
 }
 
+/// Cell2::area() over all four crystal families (cells read from JSON)
+fn check_cell_area<R: Rng>(rng: &mut R, st: &mut Stats) {
+    st.eval();
+    let fam = ["Monoclinic", "Orthorhombic", "Hexagonal", "Tetragonal"][rng.gen_range(0, 4)];
+    let (len, ratio) = (10f64.powf(rng.gen_range(-2., 2.)), if rng.gen_bool(0.3) { 1. } else { rng.gen_range(0.1, 1.) });
+    let angle = match fam {
+        "Hexagonal" => PI / 3.,
+        "Monoclinic" => rng.gen_range(PI / 6., PI / 2.),
+        _ => PI / 2.,
+    };
+    let v = json!({"length": len, "ratio": ratio, "angle": angle, "family": fam});
+    if let Ok(cell) = serde_json::from_value::<packing::Cell2>(v.clone()) {
+        let want = len * len * ratio * angle.sin();
+        let got = cell.area();
+        st.nontrivial(hash64(&[q(len, 1e-6), q(ratio, 1e-6), q(angle, 1e-6), hash_str(fam)]));
+        if !(rel_diff(got, want) <= REL) {
+            st.violation(Violation { kind: "c02.cell".into(), signature: "Cell2::area:wrong".into(), case: v, detail: json!({"library": got, "a*b*sin(angle)": want}) });
+        }
+    }
+}
+
 pub fn run(ctx: &Ctx) {
     ctx.set_rule("direct: Shape::area() of polygon(3..64), from_radial with random radii 0.2-2 (star shapes included), circle, trimers over radius 0.1-1.5 x angle 10-180 x distance 0.1-2.5, vs shoelace / exact union-of-discs area (Green's theorem over exposed arcs; self-tested against a 1200x1200 grid count at start-up); state level: random states of all 7 groups, as generated and shrunk to just outside first contact, restricted to oracle-valid packings: score vs copies x area / |A x B| (1e-9 relative) and score <= 1; non-trivial = polygons, trimers with at least one lens, states with oblique cells or multi-disc shapes; distinct by shape/parameter hash");
     if !selftest_union_area(ctx) {
@@ -229,6 +263,9 @@ pub fn run(ctx: &Ctx) {
     par_shards(ctx, 2, 64, |_, rng, st| {
         for _ in 0..na {
             check_area(&gen_area_case(rng), st);
+        }
+        for _ in 0..na / 10 {
+            check_cell_area(rng, st);
         }
         for i in 0..ns {
             let (group, shape, mut p) = c01::rand_config(rng, i % 3 == 0);
@@ -249,6 +286,14 @@ pub fn replay(ctx: &Ctx, kind: &str, case: &Value) {
         "c02.area" => {
             if let Ok(c) = serde_json::from_value::<AreaCase>(case.clone()) {
                 check_area(&c, &mut st)
+            }
+        }
+        "c02.cell" => {
+            if let Ok(cell) = serde_json::from_value::<packing::Cell2>(case.clone()) {
+                let want = case["length"].as_f64().unwrap_or(0.).powi(2) * case["ratio"].as_f64().unwrap_or(0.) * case["angle"].as_f64().unwrap_or(0.).sin();
+                if !(rel_diff(cell.area(), want) <= REL) {
+                    st.violation(Violation { kind: "c02.cell".into(), signature: "Cell2::area:wrong".into(), case: case.clone(), detail: json!({"library": cell.area(), "a*b*sin(angle)": want}) });
+                }
             }
         }
         _ => {
